@@ -171,7 +171,7 @@ def build_request(rng, ident, well_formed=True, method=None, allow_body=True):
     rng.shuffle(hdrs)
     wire = m + b" " + uri + b" " + proto + b"\r\n"
     for n, v in hdrs:
-        if rng.random() < 0.15 and v:
+        if rng.random() < 0.15 and v and n not in (b"Content-Length", b"Transfer-Encoding", b"Host"):
             # folded value
             k = rng.randint(0, len(v))
             wire += n + b": " + v[:k] + b"\r\n " + v[k:] + b"\r\n"
